@@ -184,7 +184,8 @@ def run_target(tid, tier='quick', seed=0, open_findings=(), source=None, do_conc
             res['obligations'].append(ob)
         # ---- sentinel: the negated clause must be refutable on some path of the function
         try:
-            res['sentinel'] = sentinel(run, t, tier)
+            bad = {o['clause'] for o in res['obligations'] if o['verdict'] != 'unsat'}
+            res['sentinel'] = sentinel(run, t, tier, skip=bad)
         except Exception as e:
             res['sentinel'] = dict(ok=None, error=str(e)[:200])
     # ---- concrete side: bounded run-time contract + cross-check
@@ -214,13 +215,13 @@ def clause_matches(clause, failed):
     return any(clause == f or clause.startswith(f) or f.startswith(clause) for f in failed)
 
 
-def sentinel(run, t, tier):
+def sentinel(run, t, tier, skip=()):
     """For each non-safety clause family: is there a path on which `goal` itself can be false AND one
     on which it can be true?  We pose the *negated* postcondition as a goal; if every path proved it
     too, the encoding proves anything."""
     clauses = {}
     for vc in run.vcs:
-        if vc['clause'].startswith(('safety', 'loop-')): continue
+        if vc['clause'].startswith(('safety', 'loop-')) or vc['clause'] in skip: continue
         clauses.setdefault(vc['clause'], []).append(vc)
     out = {}
     for name, vcs in clauses.items():
